@@ -35,7 +35,7 @@ def extreme_values(rng, tier):
     vals += [list(range(12000 if big else 8000)), [0.5] * (5000 if big else 800), {str(i): i for i in range(5000 if big else 800)},
              [[i] for i in range(3000 if big else 300)], [{"a": i} for i in range(2000 if big else 200)], [True, False] * 500, [None] * 500]
     vals += [{k: 1 for k in ODD_KEYS}, {k: {k: None} for k in ODD_KEYS[:6]}]
-    vals += [True, False, None, [], {}, [[]], [{}], {"": {}}]
+    vals += [True, False, None, [], {}, [[]], [{}], {"": {}}, {"": 1}, {"": "x"}, {"": None}, [{"": 1}], {"a$": 1}, "$scope", "a1"]
     return vals
 
 
@@ -58,6 +58,12 @@ def extreme_specs(rng):
         out.append({"k": "String", "kw": {"format": f}})
         out.append({"k": "Element", "kw": {"format": f}})
         out.append({"k": "AnyOf", "elements": [{"k": "String", "kw": {"format": f}}, {"k": "Null", "kw": {}}]})
+    for pat in ["^[A-Za-z_$][A-Za-z0-9_$]*$", "[$]", "^[a-z$]+$", "a$|b$", "[\\^$.]", "^$", "\\$"]:
+        out.append({"k": "String", "kw": {"pattern": pat}})
+        out.append({"k": "Element", "kw": {"pattern": pat, "propertyNames": {"k": "String", "kw": {"pattern": pat}}}})
+    out.append({"k": "Element", "kw": {"additionalProperties": {"k": "String", "kw": {}}}})
+    out.append({"k": "Element", "kw": {"patternProperties": {"^$": {"k": "Null", "kw": {}}}, "additionalProperties": {"k": "Integer", "kw": {}}}})
+    out.append({"k": "AnyOf", "elements": [{"k": "Element", "kw": {"additionalProperties": {"k": "Boolean", "kw": {}}}}, {"k": "Array", "items": {"k": "Element", "kw": {"additionalProperties": {"k": "Null", "kw": {}}}}, "kw": {}}]})
     out.append({"k": "Element", "kw": {"propertyNames": {"k": "String", "kw": {"maxLength": 3}}, "patternProperties": {"^.$": {"k": "Integer", "kw": {}}},
                                       "additionalProperties": {"k": "Number", "kw": {"multipleOf": 0.5}}}})
     out.append({"k": "Not", "element": {"k": "Number", "kw": {"multipleOf": 0.5}}})
@@ -135,6 +141,10 @@ def run(tier, seed, replay=None):
         sample = vals if len(vals) <= 2 else rng.sample(vals, 14 if tier == "quick" else 40) + EXTREME_NUMS[:6] + ["", " ", "\n", "-", "T"]
         if len(vals) > 2 and '"format"' in json.dumps(doc, default=repr):
             # a format checker sees every string, wherever it sits
+            pass
+        if len(vals) > 2 and any(k in json.dumps(doc, default=repr) for k in ('"pattern"', '"additionalProperties"', '"patternProperties"')):
+            sample = sample + ["", "a1", "$scope", "free", {"": 1}, {"": "x"}, {"": None}, [{"": 1}], {"a$": 1}]
+        if len(vals) > 2 and '"format"' in json.dumps(doc, default=repr):
             sample = sample + EXTREME_STRS + [[s] for s in EXTREME_STRS[:6]] + [{"a": s} for s in EXTREME_STRS[:6]] + [{s: 1} for s in EXTREME_STRS[:6]]
         r = repr(root)[:300]
         small = []
